@@ -542,4 +542,7 @@ def import_binding_rule(ctx, res, rule: str) -> None:
                 "without an alias the first dotted component of the module name is bound" if first else
                 f"{c.name}._Import enters the whole dotted module name (`a.b.c`) instead of its first component (`a`): `import os.path` inside the "
                 "analysed code binds a name that does not exist, and the real one (`os`) is not known as bound there", function=h.qualname)
-    res.floor(rule, "Import handlers that bind names", n, 2)
+    # a missing Import handler is reported by the coverage rules (R15.1 / R03.1); here only the classes are anchors
+    idx.need_class("rope.base.pyobjectsdef._ScopeVisitor")
+    idx.need_class("rope.refactor.extract._FunctionInformationCollector")
+    res.analysed[f"{rule}_import_handlers"] = n
